@@ -70,6 +70,10 @@ pub trait Sut: Sized + 'static {
     fn index_share(&self) -> Option<(usize, usize)> {
         None
     }
+    /// C18: model-derived lower bound on the sum of used bytes
+    fn lower_bound(_vals: &[&Self::Val]) -> usize {
+        0
+    }
 }
 
 // ---------------------------------------------------------------------------------------------
@@ -149,6 +153,9 @@ impl<S: Spec> Sut for RegionSut<S> {
     }
     fn copy_item(&mut self, src: &Self, h: &S::Idx, via_owned: bool) -> Option<S::Idx> {
         S::copy_item(&mut self.r, &src.r, *h, via_owned)
+    }
+    fn lower_bound(vals: &[&S::Val]) -> usize {
+        S::lower_bound(vals)
     }
 }
 
@@ -262,6 +269,10 @@ impl<S: Spec, IC: StackIc<S::Idx>> Sut for StackSut<S, IC> {
         } else {
             None
         }
+    }
+    fn lower_bound(vals: &[&S::Val]) -> usize {
+        // the region's share plus one index per entry when the index container is a plain vector
+        S::lower_bound(vals) + if IC::KIND == 1 { vals.len() * std::mem::size_of::<S::Idx>() } else { 0 }
     }
     fn stack_reserve(&mut self, n: usize) -> bool {
         self.s.reserve(n);
